@@ -180,16 +180,57 @@ def rule2_strides(ctx, v):
         ctx.ob('C17.2', 'split: spawned thread\'s descriptor not written after the create', not late,
                'with parent-first creation the child reads its descriptor later: rewriting it changes the child\'s range',
                loc=(late[0].loc if late else cr[0].loc))
-        # field copies
+        # the split point: c = trunc(E / 2) + R with E, R affine in (a, b) and E + 2R = a + b + t0, t0 in {0, 1}; then for
+        # 0 <= a, b - a >= 2 (the only ranges that are split, C17.1): a < c < b, both halves are non-empty and shorter.  This
+        # covers (a+b)/2, (a+b)>>1, a+(b-a)/2, b-(b-a)/2 ... -- whichever spelling, the obligation is the inequality
+        def midpoint_ok(val):
+            A = affine(f, val)
+            divs = [k for k in A if k in f.insts and f.insts[k].op in ('sdiv', 'ashr', 'lshr', 'udiv') and A[k] in (1, -1) and
+                    const_int(f.insts[k].ops[1]) == (2 if f.insts[k].op in ('sdiv', 'udiv') else 1)]
+            if not divs:
+                # degenerate but correct splits: c = a + 1 or c = b - 1
+                byl = {}
+                for k, v in A.items():
+                    if k and v:
+                        if not (k in f.insts and f.insts[k].op == 'load' and f.field(f.insts[k]) in (ARG + 'a', ARG + 'b')):
+                            return False
+                        byl[f.field(f.insts[k])] = byl.get(f.field(f.insts[k]), 0) + v
+                return (byl, A.get('', 0)) in (({ARG + 'a': 1}, 1), ({ARG + 'b': 1}, -1))
+            if len(divs) != 1:
+                return False
+            E = affine(f, f.insts[divs[0]].ops[0])
+            sg = A[divs[0]]
+            # R - floor(E/2) = floor((2R - E + 1) / 2)
+            T = {k: sg * v for k, v in E.items()}
+            if sg < 0:
+                T[''] = T.get('', 0) + 1
+            for k, v in A.items():
+                if k != divs[0]:
+                    T[k] = T.get(k, 0) + 2 * v
+            byf = {}
+            for k, v in T.items():
+                if k == '' or v == 0:
+                    continue
+                if not (k in f.insts and f.insts[k].op == 'load' and f.field(f.insts[k]) in (ARG + 'a', ARG + 'b')):
+                    return False
+                byf[f.field(f.insts[k])] = byf.get(f.field(f.insts[k]), 0) + v
+            # E itself must be non-negative for truncation to be floor: a + b or b - a (+ t0)
+            Ef = {}
+            for k, v in E.items():
+                if k and v:
+                    if not (k in f.insts and f.insts[k].op == 'load' and f.field(f.insts[k]) in (ARG + 'a', ARG + 'b')):
+                        return False
+                    Ef[f.field(f.insts[k])] = Ef.get(f.field(f.insts[k]), 0) + v
+            nonneg = Ef in ({ARG + 'a': 1, ARG + 'b': 1}, {ARG + 'a': -1, ARG + 'b': 1}) and E.get('', 0) in (0, 1)
+            return byf == {ARG + 'a': 1, ARG + 'b': 1} and T.get('', 0) in (0, 1) and nonneg
         cmid = None
-        for ins in f.order:
-            if ins.op in ('sdiv', 'ashr') and const_int(ins.ops[1]) in (2, 1):
-                a = affine(f, ins.ops[0])
-                la = [k for k in a if k in f.insts and f.insts[k].op == 'load' and f.field(f.insts[k]) == ARG + 'a']
-                lb = [k for k in a if k in f.insts and f.insts[k].op == 'load' and f.field(f.insts[k]) == ARG + 'b']
-                if len(la) == 1 and len(lb) == 1 and a[la[0]] == 1 and a[lb[0]] == 1 and len([k for k in a if k != '']) == 2:
-                    cmid = ins
-        ctx.ob('C17.2', 'split: c = (a + b) / 2', cmid is not None, 'the range is halved', loc=f.loc)
+        lb_st = [s_ for s_ in f.order if s_.op == 'store' and descr_elem(f, s_.ops[1]) == descr_elem(f, d0) and
+                 descr_elem(f, d0) is not None and f.field(s_) == ARG + 'b']
+        if len(lb_st) == 1 and isinstance(lb_st[0].ops[0], str) and midpoint_ok(lb_st[0].ops[0]):
+            cmid = f.get(f.strip(lb_st[0].ops[0]))
+        ctx.ob('C17.2', 'split: c = (a + b) / 2', cmid is not None,
+               'the split point c is a midpoint of [a, b): a < c < b whenever b - a >= 2, so each half is non-empty and shorter than the range',
+               loc=(lb_st[0].loc if lb_st else f.loc))
         for which, d in (('left', d0), ('right', d1)):
             el = descr_elem(f, d)
             sts = {}
@@ -701,6 +742,8 @@ C17M2_NEW = """    assert(myth_create_ex_body(&cid, attr_a, myth_create_join_var
     assert(myth_create_join_various_ex_aux(carg + 1) == 0);
     assert(myth_join_body(cid, 0) == 0);"""
 MUTANTS = [
+    {'name': 'split point one past the midpoint: a range of two items yields an empty right half and never shrinks (hand mutant r6)', 'expect': 'C17.2',
+     'edits': [('src/myth_sched_func.h', "    long c = (a + b) / 2;", "    long c = (a + b) / 2 + 1;")]},
     {'name': 'create / recursion / join folded into assert() arguments (seed5 C17/m2)', 'expect': 'C17.2',
      'edits': [('src/myth_sched_func.h', C17M2_OLD, C17M2_NEW)]},
     {'name': 'split descriptor narrowed to 32-bit strides (seed5 C17/m1)', 'expect': 'C17.2',
